@@ -4,6 +4,7 @@ import CorsVerif.Spec.Denote
 import CorsVerif.Spec.Fetch
 import CorsVerif.Proofs.Accepted
 import CorsVerif.Proofs.Accept
+import CorsVerif.Proofs.LexOrigins
 /-
   C01 — Allowed origins are exactly the union of what the configured patterns denote.
 
@@ -595,6 +596,97 @@ theorem C01_browser (ext : Ext) (hext : ∀ h info, ext.ip6 h = some info → h.
     (Serve.modelDec icfg).allowed d.render = (parsedPatterns ext cfg.origins).any (fun p => Spec.denotes p d.origin) := by
   rw [C01_request ext hext cfg icfg acc hns, C01_browser_parse d hs hd hp hw hany]
 
+open Spec Accept in
+/-- **Serialised origins with an IPv4 host**: the lexer reads `scheme://a.b.c.d[:port]` into its parts
+(and marks the host as an IP address). -/
+theorem C01_browser_parse_ipv4 (scheme a b c d : Bytes) (p : DocPort) (hs : docScheme scheme = true)
+    (ha : docOctet a = true) (hb : docOctet b = true) (hc : docOctet c = true) (hd : docOctet d = true)
+    (hp : docPortOK p = true) (hany : p ≠ .any) :
+    Lex.parse (scheme ++ Spec.b "://" ++ Bytes.join 46 [a, b, c, d] ++ portStr p) =
+      some { scheme := scheme, host := { value := Bytes.join 46 [a, b, c, d], assumeIP := true }, port := portNum p } := by
+  apply parse_assemble scheme _ _ p hs hp hany (fun r hr => fastParseHost_v4 a b c d ha hb hc hd r hr)
+  have h1 : scheme.length ≤ 64 := by
+    unfold docScheme at hs
+    cases hsc : scheme with
+    | nil => rw [hsc] at hs; simp at hs
+    | cons x t =>
+      rw [hsc] at hs
+      simp only [Bool.and_eq_true, decide_eq_true_eq] at hs
+      exact hs.1.2
+  have ho : ∀ f, docOctet f = true → f.length ≤ 3 := by
+    intro f hf
+    unfold docOctet at hf
+    simp only [Bool.and_eq_true, decide_eq_true_eq] at hf
+    exact hf.1.2
+  have h2 : (Bytes.join 46 [a, b, c, d]).length ≤ 15 := by
+    have := ho a ha; have := ho b hb; have := ho c hc; have := ho d hd
+    simp [Bytes.join]
+    omega
+  have h3 : (portStr p).length ≤ 6 := by
+    cases p with
+    | absent => simp [portStr]
+    | any => simp [portStr]
+    | num ds =>
+      unfold docPortOK at hp
+      simp only [Bool.and_eq_true, decide_eq_true_eq] at hp
+      simp only [portStr, List.length_cons]
+      omega
+  simp only [Facts.origins_Parse_maxOriginLen]
+  omega
+
+open Spec Accept in
+/-- **Serialised origins with a bracketed (IPv6) host**: the lexer reads `scheme://[lit][:port]` into
+its parts; it does not look inside the brackets. -/
+theorem C01_browser_parse_ipv6 (scheme lit : Bytes) (p : DocPort) (hs : docScheme scheme = true)
+    (hlen : 2 ≤ lit.length) (hmax : lit.length ≤ 45) (hnb : (93 : Nat) ∉ lit)
+    (hp : docPortOK p = true) (hany : p ≠ .any) :
+    Lex.parse (scheme ++ Spec.b "://" ++ ([91] ++ lit ++ [93]) ++ portStr p) =
+      some { scheme := scheme, host := { value := lit, assumeIP := true }, port := portNum p } := by
+  apply parse_assemble scheme _ _ p hs hp hany (fun r _ => fastParseHost_bracket lit hlen hnb r)
+  have h1 : scheme.length ≤ 64 := by
+    unfold docScheme at hs
+    cases hsc : scheme with
+    | nil => rw [hsc] at hs; simp at hs
+    | cons x t =>
+      rw [hsc] at hs
+      simp only [Bool.and_eq_true, decide_eq_true_eq] at hs
+      exact hs.1.2
+  have h3 : (portStr p).length ≤ 6 := by
+    cases p with
+    | absent => simp [portStr]
+    | any => simp [portStr]
+    | num ds =>
+      unfold docPortOK at hp
+      simp only [Bool.and_eq_true, decide_eq_true_eq] at hp
+      simp only [portStr, List.length_cons]
+      omega
+  simp only [Facts.origins_Parse_maxOriginLen, List.length_append, List.length_cons, List.length_nil]
+  omega
+
+open Spec Accept in
+/-- **C01 at the level of header values, IP hosts.** For an accepted configuration without `*`, the
+decision on a serialised origin with an IPv4 or bracketed host is again: some listed pattern denotes
+the origin the string stands for. -/
+theorem C01_browser_ip (ext : Ext) (hext : ∀ h info, ext.ip6 h = some info → h.head? ≠ some 42)
+    (cfg : Config) (icfg : ICfg) (acc : newInternalConfig ext cfg = .ok icfg)
+    (hns : cfg.origins.contains Validate.star = false)
+    (scheme : Bytes) (p : DocPort) (hs : docScheme scheme = true) (hp : docPortOK p = true) (hany : p ≠ .any) :
+    (∀ a b c d, docOctet a = true → docOctet b = true → docOctet c = true → docOctet d = true →
+      (Serve.modelDec icfg).allowed (scheme ++ Spec.b "://" ++ Bytes.join 46 [a, b, c, d] ++ portStr p) =
+        (parsedPatterns ext cfg.origins).any (fun q => Spec.denotes q
+          { scheme := scheme, host := { value := Bytes.join 46 [a, b, c, d], assumeIP := true }, port := portNum p })) ∧
+    (∀ lit, 2 ≤ lit.length → lit.length ≤ 45 → (93 : Nat) ∉ lit →
+      (Serve.modelDec icfg).allowed (scheme ++ Spec.b "://" ++ ([91] ++ lit ++ [93]) ++ portStr p) =
+        (parsedPatterns ext cfg.origins).any (fun q => Spec.denotes q
+          { scheme := scheme, host := { value := lit, assumeIP := true }, port := portNum p })) := by
+  constructor
+  · intro a b c d ha hb hc hd
+    rw [C01_request ext hext cfg icfg acc hns, C01_browser_parse_ipv4 scheme a b c d p hs ha hb hc hd hp hany]
+  · intro lit h1 h2 h3
+    rw [C01_request ext hext cfg icfg acc hns, C01_browser_parse_ipv6 scheme lit p hs h1 h2 h3 hp hany]
+
+example : Spec.docOctet (Spec.b "127") = true ∧ Spec.docOctet (Spec.b "0") = true ∧ Spec.docOctet (Spec.b "255") = true := by decide
+
 /-- Non-vacuity: hosts sharing a byte suffix that is not a label boundary (`foo.com`, `barfoo.com`)
 and a wildcard; `xfoo.com` is a near miss of both. -/
 def ex1 : Pattern := { scheme := Spec.b "https", value := Spec.b "foo.com", kind := .domain, port := 0 }
@@ -614,5 +706,8 @@ example : [ex1, ex2, ex3].any (fun p => Spec.denotes p
 #print axioms C01_request
 #print axioms C01_browser_parse
 #print axioms C01_browser
+#print axioms C01_browser_parse_ipv4
+#print axioms C01_browser_parse_ipv6
+#print axioms C01_browser_ip
 
 end Cors
